@@ -716,6 +716,8 @@ impl Array {
     /// ```
     pub fn op(arrays: &[&Array], op: ForwardOp, backward_op: Option<BackwardOp>) -> Array {
         let result = op(arrays);
+        // an operation with every child untracked outputs an untracked array, without subgraph information
+        let backward_op = backward_op.filter(|_| arrays.iter().any(|v| v.is_tracked.get()));
         if let Some(backward_op) = backward_op {
             result
                 .with_children(arrays.iter().map(|v| (*v).clone()).collect())
